@@ -30,13 +30,21 @@ def HoldPubOK (s : State) : Prop := s.conf.odStatic = false → Holding s → s.
 `ready`/`closing`: the request is held although neither a start timer is armed nor anything started. -/
 def lateDemand (s : State) (e : Event) : Bool :=
   (match e with | .describe _ => true | .addReader _ _ => true | _ => false) &&
-  !s.closed && s.stream.isNone && !s.conf.odStatic && s.conf.odPub &&
+  !s.closed && !s.stream.isSome && !s.conf.odStatic && s.conf.odPub &&
   (s.odPub == .ready || s.odPub == .closing)
 
 /-- split `Inv2` into its fields and let `grind` discharge each -/
 macro "inv2_fields" : tactic => `(tactic| (constructor <;> (try unfold Holding) <;> grind))
 
-theorem inv2_rdstep {s s' : State} (hi : Inv s) (h : Inv2 s) (R : RdStep s s') : Inv2 s' := by
+/-- the reader-related clauses of `Inv2` (the ones that do not mention the hold lists) -/
+structure Inv2a (s : State) : Prop where
+  a1 : s.conf.odStatic = true → s.closed = false → s.odSrc = .closing → s.readers = []
+  a2 : s.conf.odStatic = true → s.closed = false → s.odSrc = .ready → s.readers ≠ []
+  a3 : s.conf.odPub = true → s.closed = false → s.odPub = .closing → s.readers = []
+
+theorem Inv2.toA {s : State} (h : Inv2 s) : Inv2a s := ⟨h.a1, h.a2, h.a3⟩
+
+theorem inv2a_rdstep {s s' : State} (hi : Inv s) (h : Inv2a s) (R : RdStep s s') : Inv2a s' := by
   have hne : s.readers ≠ [] → s'.readers ≠ [] := by
     intro h1 h2
     cases hb : s.readers with
@@ -63,23 +71,39 @@ theorem inv2_rdstep {s s' : State} (hi : Inv s) (h : Inv2 s) (R : RdStep s s') :
   have f2 := R.f2
   have oS := R.odS
   have oP := R.odP
-  have f5 := R.f5
-  have f7 := R.f7
-  have f8 := R.f8
   cases h
-  unfold Holding at *
-  inv2_fields
+  constructor <;> grind
+
+theorem inv2_of_a {s : State} (h : Inv2a s) (hn : ¬ Holding s) : Inv2 s :=
+  ⟨h.a1, h.a2, h.a3, fun hh => absurd hh hn, fun hh => absurd hh hn, fun _ hh => absurd hh hn⟩
+
+/-- admitting a reader on an available path (nothing is on hold then) -/
+theorem inv2_rdstep {s s' : State} (hi : Inv s) (h : Inv2 s) (R : RdStep s s') : Inv2 s' := by
+  have ha := inv2a_rdstep hi h.toA R
+  refine ⟨ha.a1, ha.a2, ha.a3, ?_, ?_, ?_⟩ <;> unfold Holding <;> rw [R.f7, R.f8]
+  · rw [R.f5]; exact h.b1
+  · rw [R.f1]; exact h.b4
+  · intro h1 h2
+    rw [R.f1] at h1
+    have hw := h.b2 h1 h2
+    rcases R.odS with ⟨e, _⟩ | ⟨_, e, _⟩
+    · rw [e]; exact hw
+    · rw [hw] at e; cases e
 
 theorem holdPub_rdstep {s s' : State} (h : HoldPubOK s) (R : RdStep s s') (hn : ¬ Holding s) : HoldPubOK s' := by
-  cases R; unfold HoldPubOK Holding at *; grind
+  unfold HoldPubOK Holding at *
+  intro _ hh
+  rw [R.f7, R.f8] at hh
+  exact absurd hh hn
 
-theorem inv2_consume (w : W) (hi : Inv w.s) (h : Inv2 w.s) (hs : w.s.stream.isSome = true) :
+theorem inv2_consume (w : W) (hi : Inv w.s) (h : Inv2a w.s) :
     Inv2 (consumeOnHoldRequests w).s ∧ ¬ Holding (consumeOnHoldRequests w).s := by
   obtain ⟨s1, R, e⟩ := consume_rd w
   rw [e]
-  have h1 := inv2_rdstep hi h R
-  refine ⟨?_, by simp [Holding]⟩
-  cases h1; unfold Holding at *; inv2_fields
+  have h1 := inv2a_rdstep hi h R
+  have hn : ¬ Holding { s1 with descHold := [], readHold := [] } := by simp [Holding]
+  refine ⟨inv2_of_a ?_ hn, hn⟩
+  cases h1; constructor <;> grind
 
 /-- the stream/readers/hold part of the state after the shared prefix of doAddPublisher / srcReady -/
 theorem inv2_pubAttach (p : Nat) (ok : Bool) (w : W) (hi : Inv w.s) (h : Inv2 w.s) (hc : w.s.closed = false)
@@ -99,10 +123,10 @@ theorem inv2_pubAttach (p : Nat) (ok : Bool) (w : W) (hi : Inv w.s) (h : Inv2 w.
         (cases hi; cases h; unfold Holding at *; inv2_fields)
     · (repeat' split) <;> (try simp only [setAvailable_s] at *) <;> (cases hi; grind)
   · simp only [Bool.not_true, Bool.false_eq_true, if_false, emit_s]
-    have key : ∀ w3 : W, Inv w3.s → Inv2 w3.s → w3.s.stream.isSome = true →
+    have key : ∀ w3 : W, Inv w3.s → Inv2a w3.s →
         Inv2 (consumeOnHoldRequests w3).s ∧ (HoldPubOK w.s → HoldPubOK (consumeOnHoldRequests w3).s) := by
-      intro w3 i3 j3 hs3
-      obtain ⟨a, b⟩ := inv2_consume w3 i3 j3 hs3
+      intro w3 i3 j3
+      obtain ⟨a, b⟩ := inv2_consume w3 i3 j3
       exact ⟨a, fun _ => by unfold HoldPubOK; intro _ hh; exact absurd hh b⟩
     apply key
     · (repeat' split) <;>
@@ -110,9 +134,293 @@ theorem inv2_pubAttach (p : Nat) (ok : Bool) (w : W) (hi : Inv w.s) (h : Inv2 w.
         (cases hi; inv_fields)
     · (repeat' split) <;>
         simp only [emit_s, upd_s, newSub_s, setOnline_s, setAvailable_s, onDemandPublisherScheduleClose] at * <;>
+        (cases hi; cases h; unfold Holding at *; constructor <;> grind)
+
+theorem inv2_execRemove (w : W) (hi : Inv w.s) (h : Inv2 w.s) (q : Nat) (hs : w.s.source = some (.pub q)) :
+    Inv2 (executeRemovePublisher w).s ∧ (HoldPubOK w.s → HoldPubOK (executeRemovePublisher w).s) := by
+  rw [executeRemovePublisher_s]
+  have hv := odStatic_iff w.s.conf
+  have hval := hi.valid
+  unfold Conf.valid at hval
+  have hq : w.s.conf.odPub = w.s.conf.runOnDemand := rfl
+  constructor
+  · cases hi; cases h; unfold Holding at *; inv2_fields
+  · unfold HoldPubOK Holding; simp only; exact id
+
+theorem inv2_doAddPublisher (p : Nat) (ok : Bool) (w : W) (hi : Inv w.s) (h : Inv2 w.s) (hc : w.s.closed = false) :
+    Inv2 (doAddPublisher p ok w).s ∧ (HoldPubOK w.s → HoldPubOK (doAddPublisher p ok w).s) := by
+  unfold doAddPublisher
+  split
+  · exact ⟨h, id⟩
+  split
+  · exact ⟨h, id⟩
+  · rename_i hk _
+    have hk' : w.s.conf.kind = .publisher := by simpa using hk
+    obtain ⟨i1, i2, i3, i4⟩ := pubOverride_post w hi hc hk'
+    have hS : Inv2 (pubOverride w).s ∧ (HoldPubOK w.s → HoldPubOK (pubOverride w).s) := by
+      unfold pubOverride
+      split
+      · exact ⟨h, id⟩
+      · rename_i q hq
+        exact inv2_execRemove _ hi h q hq
+      · rename_i x hx hne
+        exfalso
+        rcases hi.kPub hk' with h0 | ⟨q, hq⟩
+        · rw [h0] at hne; cases hne
+        · rw [hq] at hne; injection hne with e; exact hx q e.symm
+    obtain ⟨j1, j2⟩ := inv2_pubAttach p ok _ i1 hS.1 i3 (i4 ▸ hk') i2
+    exact ⟨j1, fun hh => j2 (hS.2 hh)⟩
+
+theorem inv2_doRemovePublisher (p : Nat) (w : W) (hi : Inv w.s) (h : Inv2 w.s) :
+    Inv2 (doRemovePublisher p w).s ∧ (HoldPubOK w.s → HoldPubOK (doRemovePublisher p w).s) := by
+  unfold doRemovePublisher
+  split
+  · exact inv2_execRemove _ hi h p ‹_›
+  · exact ⟨h, id⟩
+
+theorem inv2_doDescribe (rid : Nat) (w : W) (hi : Inv w.s) (h : Inv2 w.s) (hc : w.s.closed = false) :
+    Inv2 (doDescribe rid w).s ∧
+    (HoldPubOK w.s → lateDemand w.s (.describe rid) = false → HoldPubOK (doDescribe rid w).s) := by
+  unfold doDescribe
+  have hv := odStatic_iff w.s.conf
+  have hval := hi.valid
+  unfold Conf.valid at hval
+  have hq : w.s.conf.odPub = w.s.conf.runOnDemand := rfl
+  split
+  · exact ⟨h, fun a _ => a⟩
+  split
+  · rw [replyStream_s]; exact ⟨h, fun a _ => a⟩
+  split
+  · simp only [upd_s, holdDemand_s]
+    have hne : w.s.descHold ++ [rid] ≠ [] := by simp
+    have hsn : w.s.stream = none := by
+      rename_i hs _
+      cases hst : w.s.stream with
+      | none => rfl
+      | some x => rw [hst] at hs; simp at hs
+    have hod : ∀ o : OD, o = .initial ∨ o = .waiting ∨ o = .ready ∨ o = .closing := by
+      intro o; cases o <;> simp
+    have ho1 := hod w.s.odSrc
+    have ho2 := hod w.s.odPub
+    constructor
+    · cases hi; cases h; unfold Holding at *; inv2_fields
+    · unfold HoldPubOK lateDemand Holding
+      cases hi; cases h; unfold Holding at *
+      simp only [hc, Bool.not_false, Bool.true_and, Bool.and_true]
+      intro hp hl
+      simp [hsn] at hl
+      grind
+  split
+  · exact ⟨h, fun a _ => a⟩
+  · exact ⟨h, fun a _ => a⟩
+
+theorem inv2_doAddReader (rid r : Nat) (w : W) (hi : Inv w.s) (h : Inv2 w.s) (hc : w.s.closed = false) :
+    Inv2 (doAddReader rid r w).s ∧
+    (HoldPubOK w.s → lateDemand w.s (.addReader rid r) = false → HoldPubOK (doAddReader rid r w).s) := by
+  unfold doAddReader
+  have hv := odStatic_iff w.s.conf
+  have hval := hi.valid
+  unfold Conf.valid at hval
+  have hq : w.s.conf.odPub = w.s.conf.runOnDemand := rfl
+  split
+  · rename_i hs
+    have hn : ¬ Holding w.s := fun hh => by have := h.b1 hh; rw [this] at hs; cases hs
+    exact ⟨inv2_rdstep hi h (addReaderPost_rd ..), fun a _ => holdPub_rdstep a (addReaderPost_rd ..) hn⟩
+  split
+  · simp only [upd_s, holdDemand_s]
+    have hne : w.s.readHold ++ [(rid, r)] ≠ [] := by simp
+    have hsn : w.s.stream = none := by
+      rename_i hs _
+      cases hst : w.s.stream with
+      | none => rfl
+      | some x => rw [hst] at hs; simp at hs
+    have hod : ∀ o : OD, o = .initial ∨ o = .waiting ∨ o = .ready ∨ o = .closing := by
+      intro o; cases o <;> simp
+    have ho1 := hod w.s.odSrc
+    have ho2 := hod w.s.odPub
+    constructor
+    · cases hi; cases h; unfold Holding at *; inv2_fields
+    · unfold HoldPubOK lateDemand Holding
+      cases hi; cases h; unfold Holding at *
+      simp only [hc, Bool.not_false, Bool.true_and, Bool.and_true]
+      intro hp hl
+      simp [hsn] at hl
+      grind
+  · exact ⟨h, fun a _ => a⟩
+
+theorem inv2_doRemoveReader (r : Nat) (w : W) (hi : Inv w.s) (h : Inv2 w.s) (hc : w.s.closed = false) :
+    Inv2 (doRemoveReader r w).s ∧ (HoldPubOK w.s → HoldPubOK (doRemoveReader r w).s) := by
+  unfold doRemoveReader onDemandStaticSourceScheduleClose onDemandPublisherScheduleClose
+  dsimp only
+  have hv := odStatic_iff w.s.conf
+  have hval := hi.valid
+  unfold Conf.valid at hval
+  have hq : w.s.conf.odPub = w.s.conf.runOnDemand := rfl
+  have h3 : w.s.readers.filter (· != r) ≠ [] → w.s.readers ≠ [] := by
+    intro hne he; rw [he] at hne; exact hne rfl
+  have h4 : ∀ l : List Nat, l.isEmpty = true ↔ l = [] := fun l => List.isEmpty_iff
+  constructor
+  · cases hi; cases h
+    repeat' split
+    all_goals (simp only [upd_s, emit_s] at *; generalize w.s.readers.filter (· != r) = rs at *; unfold Holding at *; inv2_fields)
+  · unfold HoldPubOK Holding
+    repeat' split
+    all_goals (simp only [upd_s, emit_s] at *; grind)
+
+theorem inv2_srcReady (ok : Bool) (w : W) (hi : Inv w.s) (h : Inv2 w.s) (hc : w.s.closed = false)
+    (hg : w.s.source = some .static ∧ w.s.srcRunning = true ∧ (!w.s.srcUp) = true) :
+    Inv2 (doSourceStaticSetReady ok w).s ∧ (HoldPubOK w.s → HoldPubOK (doSourceStaticSetReady ok w).s) := by
+  unfold doSourceStaticSetReady
+  dsimp only
+  have hv := odStatic_iff w.s.conf
+  have hval := hi.valid
+  unfold Conf.valid at hval
+  have hq : w.s.conf.odPub = w.s.conf.runOnDemand := rfl
+  cases ok
+  · simp only [Bool.not_false, if_true, emit_s, subErrCleanup_s]
+    unfold HoldPubOK Holding
+    constructor
+    · (repeat' split) <;> (try simp only [setAvailable_s] at *) <;>
         (cases hi; cases h; unfold Holding at *; inv2_fields)
+    · (repeat' split) <;> (try simp only [setAvailable_s] at *) <;> (cases hi; grind)
+  · simp only [Bool.not_true, Bool.false_eq_true, if_false, emit_s]
+    have key : ∀ w3 : W, Inv w3.s → Inv2a w3.s →
+        Inv2 (consumeOnHoldRequests w3).s ∧ (HoldPubOK w.s → HoldPubOK (consumeOnHoldRequests w3).s) := by
+      intro w3 i3 j3
+      obtain ⟨a, b⟩ := inv2_consume w3 i3 j3
+      exact ⟨a, fun _ => by unfold HoldPubOK; intro _ hh; exact absurd hh b⟩
+    apply key
     · (repeat' split) <;>
-        simp only [emit_s, upd_s, newSub_s, setOnline_s, setAvailable_s, onDemandPublisherScheduleClose] at * <;>
-        (cases hi; grind)
+        simp only [emit_s, upd_s, newSub_s, setOnline_s, setAvailable_s, onDemandStaticSourceScheduleClose] at * <;>
+        (cases hi; inv_fields)
+    · (repeat' split) <;>
+        simp only [emit_s, upd_s, newSub_s, setOnline_s, setAvailable_s, onDemandStaticSourceScheduleClose] at * <;>
+        (cases hi; cases h; unfold Holding at *; constructor <;> grind)
+
+theorem inv2_srcNotReady (w : W) (hi : Inv w.s) (h : Inv2 w.s) (hc : w.s.closed = false)
+    (hg : w.s.source = some .static ∧ w.s.srcRunning = true ∧ w.s.srcUp = true) :
+    Inv2 (doSourceStaticSetNotReady w).s ∧ (HoldPubOK w.s → HoldPubOK (doSourceStaticSetNotReady w).s) := by
+  unfold doSourceStaticSetNotReady
+  dsimp only
+  have hv := odStatic_iff w.s.conf
+  have hval := hi.valid
+  unfold Conf.valid at hval
+  have hq : w.s.conf.odPub = w.s.conf.runOnDemand := rfl
+  constructor
+  · (repeat' split) <;>
+      simp only [upd_s, setOffline_s, startOffline_s, setNotAvailable_s, onDemandStaticSourceStop_s] at * <;>
+      (cases hi; cases h; unfold Holding at *; inv2_fields)
+  · unfold HoldPubOK Holding
+    (repeat' split) <;>
+      simp only [upd_s, setOffline_s, startOffline_s, setNotAvailable_s, onDemandStaticSourceStop_s] at * <;>
+      grind
+
+theorem inv2_fireTimer (t : Timer) (w : W) (hi : Inv w.s) (h : Inv2 w.s) (hc : w.s.closed = false)
+    (ha : timerArmed w.s t = true) :
+    Inv2 (fireTimer t w).s ∧ (HoldPubOK w.s → HoldPubOK (fireTimer t w).s) := by
+  have hv := odStatic_iff w.s.conf
+  have hval := hi.valid
+  unfold Conf.valid at hval
+  have hq : w.s.conf.odPub = w.s.conf.runOnDemand := rfl
+  cases t <;> unfold fireTimer timerArmed at * <;> simp only [closeCheck_s]
+  · unfold doOnDemandStaticSourceReadyTimer
+    simp only [onDemandStaticSourceStop_s, failHolds_s, upd_s]
+    constructor
+    · cases hi; cases h; unfold Holding at *; inv2_fields
+    · unfold HoldPubOK Holding; grind
+  · unfold doOnDemandStaticSourceCloseTimer
+    constructor
+    · (repeat' split) <;> simp only [onDemandStaticSourceStop_s, setNotAvailable_s, upd_s, panic, emit_s] at * <;>
+        (cases hi; cases h; unfold Holding at *; inv2_fields)
+    · unfold HoldPubOK Holding
+      (repeat' split) <;> simp only [onDemandStaticSourceStop_s, setNotAvailable_s, upd_s, panic, emit_s] at * <;> grind
+  · unfold doOnDemandPublisherReadyTimer
+    simp only [onDemandPublisherStop_s, failHolds_s, upd_s]
+    constructor
+    · cases hi; cases h; unfold Holding at *; inv2_fields
+    · unfold HoldPubOK Holding; grind
+  · unfold doOnDemandPublisherCloseTimer
+    simp only [onDemandPublisherStop_s, upd_s]
+    constructor
+    · cases hi; cases h; unfold Holding at *; inv2_fields
+    · unfold HoldPubOK Holding
+      cases hi
+      grind
+
+theorem inv2_doClose (w : W) (hi : Inv w.s) (h : Inv2 w.s) :
+    Inv2 (doClose w).s ∧ HoldPubOK (doClose w).s := by
+  rw [doClose_s]
+  constructor
+  · cases hi; cases h; unfold Holding at *; inv2_fields
+  · unfold HoldPubOK Holding; grind
+
+theorem inv2_stepW (e : Event) (w : W) (hi : Inv w.s) (h : Inv2 w.s) :
+    Inv2 (stepW e w).s ∧ (HoldPubOK w.s → lateDemand w.s e = false → HoldPubOK (stepW e w).s) := by
+  unfold stepW
+  split
+  · exact ⟨h, fun a _ => a⟩
+  split
+  · unfold stepClosed
+    split <;> first
+      | exact ⟨h, fun a _ => a⟩
+      | (simp only [upd_s]; exact ⟨by cases h; unfold Holding at *; inv2_fields, fun a _ => by unfold HoldPubOK Holding at *; grind⟩)
+  rename_i hp hcl
+  have hc : w.s.closed = false := by simpa using hcl
+  split
+  · rw [closeCheck_s]; exact inv2_doDescribe _ _ hi h hc
+  · rw [closeCheck_s]; exact ⟨(inv2_doAddPublisher _ _ _ hi h hc).1, fun a _ => (inv2_doAddPublisher _ _ _ hi h hc).2 a⟩
+  · rw [closeCheck_s]; exact ⟨(inv2_doRemovePublisher _ _ hi h).1, fun a _ => (inv2_doRemovePublisher _ _ hi h).2 a⟩
+  · rw [closeCheck_s]; exact inv2_doAddReader _ _ _ hi h hc
+  · rw [closeCheck_s]; exact ⟨(inv2_doRemoveReader _ _ hi h hc).1, fun a _ => (inv2_doRemoveReader _ _ hi h hc).2 a⟩
+  · split
+    · exact ⟨(inv2_srcReady _ _ hi h hc ‹_›).1, fun a _ => (inv2_srcReady _ _ hi h hc ‹_›).2 a⟩
+    · exact ⟨h, fun a _ => a⟩
+  · split
+    · rw [closeCheck_s]; exact ⟨(inv2_srcNotReady _ hi h hc ‹_›).1, fun a _ => (inv2_srcNotReady _ hi h hc ‹_›).2 a⟩
+    · exact ⟨h, fun a _ => a⟩
+  · split
+    · exact ⟨(inv2_fireTimer _ _ hi h hc ‹_›).1, fun a _ => (inv2_fireTimer _ _ hi h hc ‹_›).2 a⟩
+    · exact ⟨h, fun a _ => a⟩
+  · split
+    · rename_i rx hvv
+      simp only [upd_s]
+      have := odStatic_regexp w.s.conf rx
+      have := odPub_regexp w.s.conf rx
+      exact ⟨by cases h; unfold Holding at *; inv2_fields, fun a _ => by unfold HoldPubOK Holding at *; grind⟩
+    · exact ⟨h, fun a _ => a⟩
+  · exact ⟨(inv2_doClose _ hi h).1, fun _ _ => (inv2_doClose _ hi h).2⟩
+  · exact ⟨h, fun a _ => a⟩
+  · simp only [upd_s]
+    exact ⟨by cases h; unfold Holding at *; inv2_fields, fun a _ => by unfold HoldPubOK Holding at *; grind⟩
+
+theorem inv2_init (c : Conf) : Inv2 (init c) ∧ HoldPubOK (init c) := by
+  unfold init initW HoldPubOK
+  dsimp only
+  (repeat' split) <;> simp only [upd_s, emit_s, srcStart_s] at * <;>
+    exact ⟨by constructor <;> simp [Holding], by simp [Holding]⟩
+
+theorem inv2_run (es : List Event) : ∀ s, Inv s → Inv2 s → Inv2 (run s es).1 := by
+  induction es with
+  | nil => intro s _ h; exact h
+  | cons e es ih => intro s hi h; exact ih _ (inv_step s e hi) (inv2_stepW e { s := s } hi h).1
+
+theorem inv2_reach (c : Conf) (hv : c.valid = true) (es : List Event) : Inv2 (run (init c) es).1 :=
+  inv2_run es _ (inv_init c hv) (inv2_init c).1
+
+/-- no event of the history is a late demand (checked along the run) -/
+def noLateDemand : State → List Event → Bool
+  | _, [] => true
+  | s, e :: es => !lateDemand s e && noLateDemand (step s e).1 es
+
+theorem holdPub_run (es : List Event) : ∀ s, Inv s → Inv2 s → HoldPubOK s → noLateDemand s es = true →
+    HoldPubOK (run s es).1 := by
+  induction es with
+  | nil => intro s _ _ h _; exact h
+  | cons e es ih =>
+    intro s hi h hp hn
+    unfold noLateDemand at hn
+    simp only [Bool.and_eq_true, Bool.not_eq_true'] at hn
+    exact ih _ (inv_step s e hi) (inv2_stepW e { s := s } hi h).1
+      ((inv2_stepW e { s := s } hi h).2 hp hn.1) hn.2
 
 end MtxVerif.PathSM
